@@ -362,7 +362,7 @@ def run_counted_queued(run, P):
     n = 0
     for f in sorted(P.lib_funcs(), key=lambda f: f['name']):
         evs = [ev for b, ev in P.events(f)]
-        if not any(e['e'].get('k') == 'call' and e['e'].get('fn') == COUNTING_CALL for e in evs) or \
+        if not (any(e['e'].get('k') == 'call' and e['e'].get('fn') == COUNTING_CALL for e in evs) or any(_write(e['e'])[0] == '++' for e in evs)) or \
            not any(e['e'].get('k') == 'call' and e['e'].get('fn') == WAIT for e in evs):
             continue
         name = f['name']
@@ -372,7 +372,7 @@ def run_counted_queued(run, P):
 
         def is_rule_event(ev):
             t = ev['e']
-            if t.get('k') == 'call' and t.get('fn') in (COUNTING_CALL, WAIT):
+            if t.get('k') == 'call' and t.get('fn') in (COUNTING_CALL, WAIT, DELETE):
                 return True
             if t.get('k') == 'ret':
                 return True
@@ -400,6 +400,26 @@ def run_counted_queued(run, P):
                 e = apply_generic(ev, env, R).copy()
                 e.ts['dec'] = 1
                 return [e]
+            if w == '++':
+                # the function counts the message itself: it IS an unreliable Confirmable (that is the condition of the increment)
+                e = apply_generic(ev, env, R).copy()
+                e.ts['sent'] = 1
+                e.ts['con'] = 'con-unreliable'
+                e.ts.pop('q', None)
+                e.ts.pop('dec', None)
+                e.ts.pop('xp', None)
+                return [e]
+            if t.get('k') == 'call' and t.get('fn') == DELETE and env.ts.get('sent') and env.ts.get('con') == 'con-unreliable':
+                ok = bool(env.ts.get('q') or env.ts.get('dec'))
+                run.oblige('R-CNT-CON', ok, '%s:counted-queued' % name)
+                if not ok:
+                    run.violation('R-CNT-CON', name, ev['loc'], 'counted-not-queued',
+                                  'the node of an unreliable Confirmable that was counted (con_active++) is deleted on a path that neither passed %s() nor lowered con_active: the message is '
+                                  'gone (no retransmission, no NACK) and stays counted against NSTART for ever' % WAIT, ctx.path())
+                e = apply_generic(ev, env, R).copy()
+                for k2 in ('sent', 'con', 'q', 'dec'):
+                    e.ts.pop(k2, None)
+                return [e]
             if t.get('k') == 'ret':
                 if env.ts.get('sent') and env.ts.get('con') == 'con-unreliable':
                     ok = bool(env.ts.get('q') or env.ts.get('dec'))
@@ -425,13 +445,27 @@ def run_counted_queued(run, P):
                 l = strip(c['l'])
                 if isinstance(l, dict) and l.get('k') == 'mem' and l.get('f') == 'type':
                     iscon = truth if c['op'] == '==' else not truth
+                    if env.ts.get('con') == 'con-unreliable':
+                        return env if iscon else None       # transmitting a message does not change its type
                     e = env.copy()
                     e.ts['con'] = 'con' if iscon else 'notcon'
                     return e
             # COAP_PROTO_RELIABLE(proto): proto == TCP || TLS || WS || WSS ; after `type == CON` known, every false arm keeps 'con', the
             # block that finally falls through all of them is the unreliable one.  We approximate: once 'con' is known and a later
             # comparison of ->proto with a constant comes out false for every reliable protocol the state becomes con-unreliable.
-            if env.ts.get('con') in ('con', 'con-unreliable') and c.get('k') == 'bin' and c.get('op') == '==' and isinstance(strip(c['l']), dict) and strip(c['l']).get('f') == 'proto':
+            if env.ts.get('con') == 'con-unreliable' and c.get('k') == 'bin' and c.get('op') == '==' and isinstance(strip(c['l']), dict) and strip(c['l']).get('f') == 'proto':
+                RELIABLE = set(P.const_named(nm) for nm in ('COAP_PROTO_TCP', 'COAP_PROTO_TLS', 'COAP_PROTO_WS', 'COAP_PROTO_WSS'))
+                UNREL = set(P.const_named(nm) for nm in ('COAP_PROTO_UDP', 'COAP_PROTO_DTLS'))
+                K = const_int(c['r'])
+                if truth:
+                    return None if K in RELIABLE else env
+                ex = set(env.ts.get('xp', ())) | {K}
+                if UNREL <= ex:
+                    return None          # neither UDP nor DTLS: contradicts "unreliable"
+                e = env.copy()
+                e.ts['xp'] = tuple(sorted(x for x in ex if x is not None))
+                return e
+            if env.ts.get('con') in ('con',) and c.get('k') == 'bin' and c.get('op') == '==' and isinstance(strip(c['l']), dict) and strip(c['l']).get('f') == 'proto':
                 e = env.copy()
                 if truth:
                     e.ts['con'] = 'con-reliable'
@@ -442,6 +476,70 @@ def run_counted_queued(run, P):
                         e.ts['con'] = 'con-unreliable'
                 return e
             return env
-        ctx = solve(f, Env({}), on_event, None, keys, R, key_fn=lambda e: (e.ts.get('sent'), e.ts.get('con'), e.ts.get('np'), e.ts.get('q'), e.ts.get('dec')), on_branch=on_branch, max_envs=512)
+        ctx = solve(f, Env({}), on_event, None, keys, R, key_fn=lambda e: (e.ts.get('sent'), e.ts.get('con'), e.ts.get('np'), e.ts.get('xp'), e.ts.get('q'), e.ts.get('dec')), on_branch=on_branch, max_envs=512)
         run.stats['cnt_counted_queued_steps'] += ctx.steps
     run.require(n >= 1 or run.fixture_mode, 'R-CNT-CON(f): no function both counts through coap_send_pdu() and queues through coap_wait_ack()')
+
+
+# ---------------------------------------------------------------------------------------------------------------
+DRAIN = 'coap_cancel_session_messages'
+
+
+def run_reset_drains(run, P):
+    """(g) reset implies drain.  Setting con_active to 0 says "nothing of this session is in flight".  That is only true if the
+    session's nodes leave the send queue as well: on every path from a `con_active = 0` to a return of the same function
+    coap_cancel_session_messages() is called for the session.  A reset on a path that returns with the queue intact (the
+    COAP_NACK_ICMP_ISSUE early return of the disconnect handler) lets new Confirmables pass the NSTART gate while the old ones
+    are still being retransmitted, and overtakes what is held in the delay queue."""
+    run.rule('R-CNT-CON')
+    n = 0
+    for f in sorted(P.lib_funcs(), key=lambda f: f['name']):
+        resets = [ev for b, ev in P.events(f) if _write(ev['e'])[0] == '=0']
+        if not resets:
+            continue
+        name = f['name']
+        # object construction (the session is being made: nothing can be queued yet) is exempt
+        fresh = any(ev['e'].get('k') in ('asg',) and isinstance(strip(ev['e'].get('r')), dict) and strip(ev['e']['r']).get('k') == 'call' and
+                    'malloc' in (strip(ev['e']['r']).get('fn') or '') for b, ev in P.events(f))
+        if fresh:
+            continue
+        n += len(resets)
+        for r0 in resets:
+            run.instance('R-CNT-CON', '%s: con_active = 0' % name)
+
+        def is_rule_event(ev):
+            t = ev['e']
+            return any(ev is r0 for r0 in resets) or (t.get('k') == 'call' and t.get('fn') == DRAIN) or t.get('k') == 'ret'
+        keys, R = relevance(f, is_rule_event)
+
+        def chk(loc, env, ctx):
+            if env.ts.get('reset') and not env.ts.get('drain'):
+                run.oblige('R-CNT-CON', False, '%s:reset-drains' % name)
+                run.violation('R-CNT-CON', name, loc, 'reset-without-drain',
+                              'the function returns after session->con_active = 0 (%s) without %s(): the Confirmables of the session stay in the send queue but are no longer '
+                              'counted, so more than NSTART can be in flight and held messages are overtaken' % (env.ts['reset'].rsplit('/', 1)[-1], DRAIN), ctx.path())
+            elif env.ts.get('reset'):
+                run.oblige('R-CNT-CON', True, '%s:reset-drains' % name)
+
+        def on_event(ev, env, ctx):
+            t = ev['e']
+            if any(ev is r0 for r0 in resets):
+                e = apply_generic(ev, env, R).copy()
+                e.ts['reset'] = ev['loc']
+                return [e]
+            if t.get('k') == 'call' and t.get('fn') == DRAIN:
+                e = apply_generic(ev, env, R).copy()
+                e.ts['drain'] = 1
+                return [e]
+            if t.get('k') == 'ret':
+                chk(ev['loc'], env, ctx)
+                e = env.copy()
+                e.ts['done'] = 1
+                return [e]
+            return None
+
+        def on_exit(env, ctx):
+            if not env.ts.get('done'):
+                chk(f['loc'], env, ctx)
+        solve(f, Env({}), on_event, on_exit, keys, R, key_fn=lambda e: (e.ts.get('reset'), e.ts.get('drain'), e.ts.get('done')))
+    run.require(n >= 1 or run.fixture_mode, 'R-CNT-CON(g): no reset of con_active outside object construction found')
